@@ -518,6 +518,9 @@ class IntegratorLearner(BaseLearner):
             points[1] - points[0] < abs(points[0]) * coeff.min_sep
             or points[-1] - points[-2] < abs(points[-2]) * coeff.min_sep
         ):
+            # Too narrow to be refined: drop it, remembering its error as excess
+            # (as algorithm 4 does), so that done() can disregard it.
+            ival.removed = True
             self.ivals.remove(ival)
         elif ival.depth == 3 or force_split:
             # Always split when depth is maximal or if refining didn't help
